@@ -163,6 +163,109 @@ def handleCube (op : String) (j : Json) : R Json := do
           ("brute", jNats (cells.map (Cube.brute dims N)))])
   | _ => throw s!"unknown op {op}"
 
+open Catii.IIdx in
+def parseIdx (j : Json) : R IIdx.IIndex := do
+  let es ← (← arr (← fld j "entries")).toList.mapM fun e => do
+    match (← arr e).toList with
+    | [k, r] => pure ((← intList k), (← natList r))
+    | _ => throw "index entry must be [key, rowids]"
+  pure { entries := es, common := ← fInt j "common", shape := ← natList (← fld j "shape") }
+
+def parseEnts (j : Json) : R (List (IIdx.Key × IIdx.Rows)) := do
+  (← arr j).toList.mapM fun e => do
+    match (← arr e).toList with
+    | [k, r] => pure ((← intList k), (← natList r))
+    | _ => throw "entry must be [key, rowids]"
+
+def jIdx (i : IIdx.IIndex) : Json :=
+  Json.mkObj [("shape", jNats i.shape), ("common", jInt i.common),
+    ("entries", Json.arr (i.entries.map fun e => Json.arr #[jInts e.1, jNats e.2]).toArray)]
+
+def jArr (a : IIdx.Arr) : Json := Json.mkObj [("shape", jNats a.shape), ("data", jInts a.data)]
+
+def parseArr (j : Json) : R IIdx.Arr := do
+  pure { shape := ← natList (← fld j "shape"), data := ← intList (← fld j "data") }
+
+def optFld (j : Json) (k : String) : Option Json :=
+  match j.getObjVal? k with | .ok v => if v.isNull then none else some v | .error _ => none
+
+def parsePairs (j : Json) : R (List (Int × Int)) := do
+  (← arr j).toList.mapM fun p => do
+    match (← arr p).toList with
+    | [a, b] => pure ((← int a), (← int b))
+    | _ => throw "pair expected"
+
+def optPairs (j : Json) (k : String) : R (Option (List (Int × Int))) :=
+  match optFld j k with | some v => some <$> parsePairs v | none => pure none
+
+def optInt (j : Json) (k : String) : R (Option Int) :=
+  match optFld j k with | some v => some <$> int v | none => pure none
+
+def parseDT (s : String) : R DT :=
+  match DT.all.find? (fun d => d.name == s) with | some d => pure d | none => throw s!"dtype {s}"
+
+def iErrName : IIdx.Err → String
+  | .keyError _ => "KeyError" | .typeError _ => "TypeError" | .valueError _ => "ValueError"
+  | .overflow _ => "OverflowError" | .indexError _ => "IndexError" | .zeroDivision => "ZeroDivisionError"
+  | .scope m => "scope:" ++ m
+
+def jM {α} (f : α → Json) : IIdx.M α → Json
+  | .ok v => Json.mkObj [("ok", f v)]
+  | .error e => Json.mkObj [("err", Json.str (iErrName e))]
+
+def handleIdx (j : Json) : R Json := do
+  let m ← fStr j "m"
+  let self : R IIdx.IIndex := do parseIdx (← fld j "self")
+  match m with
+  | "from_array" =>
+      let a ← parseArr (← fld j "arr")
+      let o : IIdx.FromOpts := { counts := ← optPairs j "counts", common := ← optInt j "common", mapping := ← optPairs j "mapping" }
+      pure (jM (fun (r : IIdx.IIndex × Bool) => Json.mkObj [("idx", jIdx r.1), ("where", Json.bool r.2)]) (IIdx.fromArray a o))
+  | "to_array" =>
+      let dt ← match optFld j "dtype" with | some v => some <$> (v.getStr? >>= parseDT) | none => pure none
+      pure (jM jArr (IIdx.toArray (← self) (← optPairs j "mapping") dt))
+  | "shift_common" => pure (jM jIdx (IIdx.shiftCommon (← self) (← optInt j "new")))
+  | "common_rowids" => pure (Json.mkObj [("ok", jNats (IIdx.commonRowids (← self) (← optInt j "col")))])
+  | "append" => pure (jM jIdx (IIdx.append (← self) (← parseIdx (← fld j "other"))))
+  | "update" => pure (jM jIdx (IIdx.update (← self) (← parseEnts (← fld j "entries"))))
+  | "union_update" => pure (jM jIdx (IIdx.unionUpdate (← self) (← parseEnts (← fld j "entries"))))
+  | "intersection_update" => pure (jM jIdx (IIdx.intersectionUpdate (← self) (← parseEnts (← fld j "entries"))))
+  | "difference_update" => pure (jM jIdx (IIdx.differenceUpdate (← self) (← parseEnts (← fld j "entries"))))
+  | "filtered" =>
+      let mask ← (← arr (← fld j "mask")).toList.mapM (fun b => b.getBool?)
+      pure (jM jIdx (IIdx.filtered (← self) mask (← fNat j "new_length")))
+  | "sliced" =>
+      let orders ← (← arr (← fld j "orders")).toList.mapM fun o =>
+        if o.isNull then pure IIdx.Order.all
+        else match o with
+          | Json.arr a => do pure (IIdx.Order.list (← a.toList.mapM int))
+          | _ => do pure (IIdx.Order.one (← int o))
+      pure (jM jIdx (IIdx.sliced (← self) orders))
+  | "slices1d" =>
+      pure (Json.mkObj [("ok", Json.arr ((← self).slices.map fun (c, ix) => Json.arr #[jInts c, jIdx ix]).toArray)])
+  | "reindexed" =>
+      let shift := match optFld j "shift" with | some (Json.bool b) => b | _ => true
+      let au := match optFld j "assume_unique" with | some (Json.bool b) => b | _ => false
+      pure (jM jIdx (IIdx.reindexed (← self) (← optPairs j "mapping") shift au))
+  | "collapsed" =>
+      pure (jM jIdx (IIdx.collapsed (← self) (← intList (← fld j "precedence")) (← optPairs j "mapping")))
+  | "column_stack" =>
+      let ixs ← (← arr (← fld j "indexes")).toList.mapM parseIdx
+      pure (jM jIdx (IIdx.columnStack ixs (← optInt j "new_common")))
+  | "copy" => pure (Json.mkObj [("ok", jIdx (IIdx.copy (← self)))])
+  | "eq" => pure (Json.mkObj [("ok", Json.bool (IIdx.eqIdx (← parseIdx (← fld j "a")) (← parseIdx (← fld j "b"))))])
+  | "validates" => pure (Json.mkObj [("ok", Json.bool (IIdx.validates (← self)))])
+  | "wf" => pure (Json.mkObj [("ok", Json.bool (IIdx.wf (← self)))])
+  | "dense" => pure (Json.mkObj [("ok", jArr (IIdx.denseArr (← self)))])
+  | "get" =>
+      let force := match optFld j "force" with | some (Json.bool b) => b | _ => false
+      pure (Json.mkObj [("ok", match IIdx.getKey (← self) (← intList (← fld j "key")) force with
+        | some r => jNats r | none => Json.null)])
+  | "items_force" =>
+      pure (Json.mkObj [("ok", Json.arr ((IIdx.itemsForce (← self)).map fun e => Json.arr #[jInts e.1, jNats e.2]).toArray)])
+  | "abscissae" => pure (Json.mkObj [("ok", jInts (IIdx.abscissae (← self)))])
+  | _ => throw s!"unknown iidx method {m}"
+
 def handle (j : Json) : R Json := do
   let op ← fStr j "op"
   match op with
@@ -173,6 +276,7 @@ def handle (j : Json) : R Json := do
       let s ← fNat j "size"
       pure (Json.mkObj [("fmt", jNat (Gen.formatWidth s)), ("dtype", Json.str (Gen.wordDtype s).name)])
   | "kern" => handleKern j
+  | "iidx" => handleIdx j
   | "walk" | "count" => handleCube op j
   | "indx_save" | "indx_roundtrip" | "indx_layout" | "indx_load" | "indx_load_prefixes" | "indx_size" => handleIndx op j
   | _ => throw s!"unknown op {op}"
